@@ -187,6 +187,36 @@ def graph_items(quick):
 # the instantiation of an accepted set is judged by the constructor log.
 
 
+# Value alphabet of a link source: "w" the whole object, "a" its attribute `attr` (an object), and attributes whose
+# value is None / falsy (the statement says the parameter receives the attribute, whatever it holds).
+HOW_ATTR = {"a": "attr", "n": "attr_none", "z": "attr_zero", "e": "attr_empty", "f": "attr_false", "l": "attr_list", "o": "attr_fobj"}
+FALSY_HOWS = "nzeflo"
+
+# Name alphabet of the components.  "plain": unrelated names.  The others are PREFIX-RELATED names: every name is a
+# proper string prefix of the next one - without a separator, with an underscore boundary (model / model_ema), and as
+# leaves under a common dotted parent (class groups g.n, g.n2: the prefix relation sits behind a dot).  Because every
+# labelled DAG is enumerated in every declaration order, every assignment of these names to the nodes is covered.
+NAMES = {
+    "plain": ["c0", "c1", "c2", "c3"],
+    "prefix": ["n", "n2", "n2x", "n2xy"],
+    "prefix_": ["n", "n_e", "n_e_m", "n_e_m_a"],
+    "dotted": ["g.n", "g.n2", "g.n2x", "g.n2xy"],
+}
+# hier: the two components around `root`: one name is a proper prefix of "root", the other has "root" as a proper prefix
+HIER_NAMES = {"plain": {"sa": "sa", "sb": "sb"}, "prefix": {"sa": "roo", "sb": "root2"}}
+# within: holder argument / outside component; either name a proper prefix of the other
+WITHIN_NAMES = {"plain": ("h", "sa"), "prefix": ("h", "h2"), "prefix-rev": ("h2", "h")}
+
+
+def _src_key(base, how):
+    return base if how == "w" else f"{base}.{HOW_ATTR[how]}"
+
+
+def param_default(param):
+    """Parameters d* have the non-None default "unset" (fixtures), every other link-fed parameter defaults to None."""
+    return "unset" if param[0] == "d" else None
+
+
 def _fx():
     import importlib
 
@@ -230,7 +260,9 @@ def setup_dag(case, F):
 
     kinds = case["kinds"]
     k = len(kinds)
-    names = [f"c{i}" for i in range(k)]
+    nodes = [f"c{i}" for i in range(k)]  # abstract node labels used in the links
+    names = NAMES[case.get("names", "plain")][:k]  # the names the components get in the parser
+    real = dict(zip(nodes, names))
 
     def build():
         parser, args = ArgumentParser(exit_on_error=False), []
@@ -240,14 +272,14 @@ def setup_dag(case, F):
 
     return {
         "build": build,
-        "nodes": {names[i]: KIND_CLASS[kinds[i]] + str(i) for i in range(k)},
+        "nodes": {nodes[i]: KIND_CLASS[kinds[i]] + str(i) for i in range(k)},
         "nesting": [],
-        "source": lambda node, how: node if how == "w" else node + ".attr",
-        "target": lambda node, param: _component_target(kinds[int(node[1:])], node, param),
-        "own": {names[i]: 10 + i for i in range(k)},
-        "result": {n: n for n in names},
+        "source": lambda node, how: _src_key(real[node], how),
+        "target": lambda node, param: _component_target(kinds[int(node[1:])], real[node], param),
+        "own": {nodes[i]: 10 + i for i in range(k)},
+        "result": dict(real),
         "parents": [],
-        "params": {n: ["p0", "p1", "p2", "p3"] for n in names},
+        "params": {nodes[i]: ["p0", "p1", "p2", "p3"] + (["d0", "d1", "d2", "d3"] if kinds[i] != "T" else []) for i in range(k)},
         "tags": lambda links: [],
     }
 
@@ -261,6 +293,7 @@ def setup_hier(case, F):
 
     rk, sk = case["root"], case["src"]
     pre = "root." if rk == "G" else "root.init_args."
+    nm = HIER_NAMES[case.get("names", "plain")]
 
     def build():
         parser, args = ArgumentParser(exit_on_error=False), []
@@ -275,17 +308,17 @@ def setup_hier(case, F):
                     args.append(_json_arg("root", _spec("Root", v=20, child=child)))
             else:
                 i = 0 if name == "sa" else 1
-                _add_component(parser, args, sk[i], (F.SrcA, F.SrcB)[i], name, 30 + i)
+                _add_component(parser, args, sk[i], (F.SrcA, F.SrcB)[i], nm[name], 30 + i)
         return parser, args
 
     def source(node, how):
-        base = {"sa": "sa", "sb": "sb", "L0": "root", "L1": "root.child"}[node]
+        base = {"sa": nm["sa"], "sb": nm["sb"], "L0": "root", "L1": "root.child"}[node]
         assert node != "L1" or rk == "G"
-        return base if how == "w" else base + ".attr"
+        return _src_key(base, how)
 
     def target(node, param):
         if node in ("sa", "sb"):
-            return _component_target(sk[0 if node == "sa" else 1], node, param)
+            return _component_target(sk[0 if node == "sa" else 1], nm[node], param)
         return pre + {"L0": "", "L1": "child.init_args.", "L2": "child.init_args.grandchild.init_args."}[node] + param
 
     def tags(links):
@@ -306,9 +339,9 @@ def setup_hier(case, F):
         "source": source,
         "target": target,
         "own": {"sa": 30, "sb": 31, "L0": 20, "L1": 21, "L2": 22},
-        "result": {"sa": "sa", "sb": "sb", "L0": "root"},
+        "result": {"sa": nm["sa"], "sb": nm["sb"], "L0": "root"},
         "parents": [("L0", "child", "L1"), ("L1", "grandchild", "L2")],
-        "params": {"sa": ["pr"], "sb": ["pr"], "L0": ["pa", "pb"], "L1": ["pa", "pb"], "L2": ["pa", "pb"]},
+        "params": {"sa": ["pr", "dr"], "sb": ["pr", "dr"], **{lv: ["pa", "pb", "da", "db"] for lv in ("L0", "L1", "L2")}},
         "tags": tags,
     }
 
@@ -321,30 +354,31 @@ def setup_within(case, F):
     from jsonargparse import ArgumentParser
 
     hk, xk = case["h"], case["x"]
+    hn, xn = WITHIN_NAMES[case.get("names", "plain")]
 
     def build():
         parser, args = ArgumentParser(exit_on_error=False), []
         for name in case["decl"]:
             if name == "h":
                 if hk == "S":
-                    parser.add_subclass_arguments(F.Holder, "h")
+                    parser.add_subclass_arguments(F.Holder, hn)
                 else:
-                    parser.add_argument("--h", type=F.Holder)
-                args.append(_json_arg("h", _spec("Holder", v=40, a=_spec("SibA", v=41), b=_spec("SibB", v=42), c=_spec("SibC", v=43))))
+                    parser.add_argument("--" + hn, type=F.Holder)
+                args.append(_json_arg(hn, _spec("Holder", v=40, a=_spec("SibA", v=41), b=_spec("SibB", v=42), c=_spec("SibC", v=43))))
             else:
-                _add_component(parser, args, xk, F.SrcA, "sa", 30)
+                _add_component(parser, args, xk, F.SrcA, xn, 30)
         return parser, args
 
     def source(node, how):
-        base = {"a": "h.a", "b": "h.b", "c": "h.c", "H": "h", "X": "sa"}[node]
-        return base if how == "w" else base + ".attr"
+        base = {"a": hn + ".a", "b": hn + ".b", "c": hn + ".c", "H": hn, "X": xn}[node]
+        return _src_key(base, how)
 
     def target(node, param):
         if node == "X":
-            return _component_target(xk, "sa", param)
+            return _component_target(xk, xn, param)
         if node == "H":
-            return "h.init_args." + param
-        return f"h.init_args.{node}.init_args.{param}"
+            return f"{hn}.init_args.{param}"
+        return f"{hn}.init_args.{node}.init_args.{param}"
 
     return {
         "build": build,
@@ -353,9 +387,9 @@ def setup_within(case, F):
         "source": source,
         "target": target,
         "own": {"a": 41, "b": 42, "c": 43, "H": 40, "X": 30},
-        "result": {"H": "h", "X": "sa"},
+        "result": {"H": hn, "X": xn},
         "parents": [("H", "a", "a"), ("H", "b", "b"), ("H", "c", "c")],
-        "params": {"a": ["qa", "qb", "qc", "qs"], "b": ["qa", "qb", "qc", "qs"], "c": ["qa", "qb", "qc", "qs"], "H": ["qs"], "X": ["pr"]},
+        "params": {**{x: ["qa", "qb", "qc", "qs", "da", "db", "dc", "ds"] for x in "abc"}, "H": ["qs", "ds"], "X": ["pr", "dr"]},
         "tags": _within_tags,
     }
 
@@ -392,21 +426,33 @@ def ref_acyclic(fam, links):
     return acyclic(len(names), edges)
 
 
+def _how_shape(how):
+    return {"w": "whole", "a": "attr", "n": "attr-none"}.get(how, "attr-falsy")
+
+
 def link_shape(link):
-    return ("multi" if len(link["s"]) > 1 else {"w": "whole", "a": "attr"}[link["s"][0][1]]) + ("+fn" if link["fn"] else "")
+    """Shape of a link for signatures: by the kind of value it carries (object / None / other falsy value), not the value."""
+    hows = [how for _, how in link["s"]]
+    if len(hows) == 1:
+        base = _how_shape(hows[0])
+    else:
+        base = "multi" if all(h in "wa" for h in hows) else ("multi-none" if "n" in hows else "multi-falsy")
+    return base + ("+fn" if link["fn"] else "")
 
 
 def check_fed(F, Namespace, link, received, objs, devs):
     """What the constructor of the target received for one link, compared with the source objects by identity."""
     shape = link_shape(link)
+    default = param_default(link["p"])
+    missing = object()  # the source was never constructed: nothing can be the right value
 
     def want(node, how):
         obj = objs.get(node)
-        return None if obj is None else (obj if how == "w" else obj.attr)
+        return missing if obj is None else (obj if how == "w" else getattr(obj, HOW_ATTR[how]))
 
     def classify(got):
-        if got is None:
-            return "link-not-applied"
+        if got is None if default is None else (isinstance(got, str) and got == default):
+            return "link-not-applied"  # the constructor received the parameter's default
         if isinstance(got, (Namespace, dict)):
             return "fed-unconstructed-source-config"
         if isinstance(got, (F.Base, F.Attr)):
@@ -425,8 +471,12 @@ def check_fed(F, Namespace, link, received, objs, devs):
     else:
         pairs = [(link["s"][0], received)]
     for (node, how), got in pairs:
-        if got is None or got is not want(node, how):
-            devs.append((f"{classify(got)}:{shape}", f"{where} got {got!r} for source {node}, expected {want(node, how)!r}"))
+        # identity: the very object / attribute value of the constructed source (None, 0, "", False are singletons).
+        # A list is a configuration container for the library: on its way into an init arg of a subclass-type
+        # target the settings are cloned, so a list attribute may arrive as an equal copy - judged by type and value.
+        if got is not want(node, how) and not (how == "l" and type(got) is list and got == want(node, how)):
+            exp = "<source never constructed>" if want(node, how) is missing else repr(want(node, how))
+            devs.append((f"{classify(got)}:{shape}", f"{where} got {got!r} for source {node} ({how}), expected {exp}"))
             return
 
 
@@ -466,7 +516,7 @@ def check_instantiation(F, Namespace, fam, links, init, log):
         if obj.received.get("v") != fam["own"][node]:
             devs.append(("own-setting-lost", f"{node}.v = {obj.received.get('v')!r}, expected {fam['own'][node]}"))
         for p in fam["params"][node]:
-            if (node, p) not in fed and obj.received.get(p) is not None:
+            if (node, p) not in fed and obj.received.get(p) != param_default(p):
                 devs.append(("unlinked-parameter-changed", f"{node}.{p} = {obj.received.get(p)!r}"))
     return devs
 
@@ -587,20 +637,41 @@ def all_digraphs(k):
 VARIANTS = ["whole", "attr", "whole+fn", "attr+fn", "mixed", "multi"]
 
 
-def links_for(edges, variant):
-    """Turn an edge list over component indices into links (one per edge; 'multi' merges all in-edges of a node)."""
+def parse_variant(variant):
+    """'whole' | 'attr' | 'attr:<how>' [+ '+fn']  ->  (how letter, fn)."""
+    fn = int(variant.endswith("+fn"))
+    base = variant[:-3] if fn else variant
+    return ("w" if base == "whole" else "a" if base == "attr" else base.split(":")[1]), fn
+
+
+# the value alphabet as link variants: an attribute holding None / a falsy value, alone, through compute_fn, and as the
+# first argument of a multi-source compute_fn
+VALUE_VARIANTS = [f"{v}:{h}{fn}" for h in FALSY_HOWS for v, fn in (("attr", ""), ("attr", "+fn"), ("multi", ""))]
+
+
+def links_for(edges, variant, par="p"):
+    """Turn an edge list over component indices into links (one per edge; 'multi' merges all in-edges of a node into
+    one multi-source link; 'multi:<how>': the same with the FIRST source an attribute of kind <how> (None / falsy),
+    and a node with a single in-edge gets a second source from the same component, so the shape exists from k = 2).
+    par: 'p' targets p0..p3 (default None), 'd' targets d0..d3 (default "unset")."""
     links = []
-    if variant == "multi":
+    if variant.startswith("multi"):
+        first = variant.split(":")[1] if ":" in variant else None
         by_t = {}
         for s, t in edges:
             by_t.setdefault(t, []).append(s)
         for t in sorted(by_t):
             srcs = sorted(by_t[t])
-            links.append({"s": [[f"c{s}", "wa"[(s + t + n) % 2]] for n, s in enumerate(srcs)], "t": f"c{t}", "p": f"p{srcs[0]}", "fn": 1})
+            src = [[f"c{s}", "wa"[(s + t + n) % 2]] for n, s in enumerate(srcs)]
+            if first:
+                src[0][1] = first
+                if len(src) == 1:
+                    src.append([src[0][0], "a"])
+            links.append({"s": src, "t": f"c{t}", "p": f"{par}{srcs[0]}", "fn": 1})
         return links
     for s, t in edges:
-        v = variant if variant != "mixed" else VARIANTS[(s + 2 * t) % 4]
-        links.append({"s": [[f"c{s}", "w" if v.startswith("whole") else "a"]], "t": f"c{t}", "p": f"p{s}", "fn": int(v.endswith("+fn"))})
+        how, fn = parse_variant(variant if variant != "mixed" else VARIANTS[(s + 2 * t) % 4])
+        links.append({"s": [[f"c{s}", how]], "t": f"c{t}", "p": f"{par}{s}", "fn": fn})
     return links
 
 
@@ -620,8 +691,12 @@ def link_orders(links, level):
     return out
 
 
+PREFIX_NAMES = ("prefix", "prefix_", "dotted")
+
+
 def dag_plan(k, quick):
-    """Rows (kinds, variant, declaration orders: 'all' | 'few', link-order level, also cycle-closing links)."""
+    """Rows (kinds, variant, declaration orders: 'all' | 'few', link-order level (-1: as listed only), also
+    cycle-closing links [, name scheme, target parameters 'p' | 'd'])."""
     gs = ["".join(p) for p in itertools.product("GS", repeat=k)]
     gsa = ["".join(p) for p in itertools.product("GSA", repeat=k)]
     rows = []
@@ -629,6 +704,16 @@ def dag_plan(k, quick):
         for kinds in gsa:
             for v in VARIANTS:
                 rows.append((kinds, v, "all", 0 if quick else 2, v in ("whole", "attr+fn")))
+        # name alphabet: prefix-related component names x all kinds x the four single-source shapes
+        for names in PREFIX_NAMES:
+            for kinds in gsa:
+                for v in ("whole", "attr+fn") if quick else VARIANTS[:4]:
+                    rows.append((kinds, v, "all", 0, True, names, "p"))
+        # value alphabet: every None / falsy attribute value (alone, through compute_fn, first argument of a
+        # multi-source compute_fn) and the ordinary values, all into parameters with a non-None default, x all kinds
+        for kinds in gsa:
+            for v in VARIANTS[:4] + VALUE_VARIANTS:
+                rows.append((kinds, v, "all", 0, False, "plain", "d"))
     elif k == 3 and quick:
         for kinds in gs + ["AAA", "AGA"]:
             rows.append((kinds, "whole", "all", 0, True))
@@ -637,14 +722,27 @@ def dag_plan(k, quick):
                 rows.append((kinds, v, "all", 0, v == "attr+fn"))
         for v in ("attr", "whole+fn"):
             rows.append(("GSG", v, "all", 0, False))
+        # prefix-related names: every DAG x every declaration order (GGG also both link orders and every closing link)
+        rows += [("GGG", "whole", "all", 0, True, "prefix", "p"), ("SGS", "attr+fn", "all", -1, False, "prefix", "p")]
+        rows += [("GGG", "whole", "all", -1, False, "prefix_", "p"), ("GSG", "whole", "all", -1, True, "dotted", "p")]
+        # None / falsy attribute values inside every DAG (first and last declaration order)
+        rows += [("SGS", "attr:n", "few", -1, False, "plain", "d"), ("GSG", "attr:n+fn", "few", -1, False, "plain", "d")]
+        rows += [("SSS", "multi:n", "few", -1, False, "plain", "d"), ("ASA", "attr:z", "few", -1, False, "plain", "d")]
     elif k == 3:
         for kinds in gsa:
             simple = kinds in gs
             for v in VARIANTS:
                 rows.append((kinds, v, "all", 2 if simple and v in ("whole", "mixed") else 0, v in ("whole", "attr+fn")))
+        for names in PREFIX_NAMES:
+            rows += [(kinds, "whole", "all", 0, True, names, "p") for kinds in gs + ["AAA"]]
+            rows += [(kinds, "attr+fn", "all", 0, False, names, "p") for kinds in ("GSG", "SGS")]
+        for kinds in ("SSS", "GSG", "SGS", "ASA"):
+            rows += [(kinds, v, "all", -1, False, "plain", "d") for v in VALUE_VARIANTS]
     else:  # k == 4, thorough only
         rows += [("GGGG", "whole", "all", 0, True), ("GGGG", "attr+fn", "all", -1, True), ("GGGG", "multi", "all", -1, False)]
         rows += [("GSGS", "whole", "all", -1, True), ("SGAG", "mixed", "few", -1, False), ("SSSS", "mixed", "few", -1, False)]
+        rows += [("GGGG", "whole", "all", -1, False, "prefix", "p"), ("GSGS", "attr+fn", "few", -1, False, "dotted", "p")]
+        rows += [("SGSG", "attr:n", "few", -1, False, "plain", "d"), ("SSSS", "multi:n", "few", -1, False, "plain", "d")]
     return rows
 
 
@@ -659,8 +757,10 @@ def dag_cases(quick):
             closing_edges = [
                 (s, t) for s in range(k) for t in range(k) if (s, t) not in edges and not acyclic(k, edges + [(s, t)])
             ]
-            for kinds, variant, decl_mode, level, with_closing in plan:
-                links = links_for(edges, variant)
+            for row in plan:
+                kinds, variant, decl_mode, level, with_closing, names, par = (row + ("plain", "p"))[:7]
+                more = {} if names == "plain" else {"names": names}
+                links = links_for(edges, variant, par)
                 if variant == "multi" and all(len(l["s"]) == 1 for l in links):
                     continue  # no node with two in-edges: same shapes as "attr+fn" / "whole+fn"
                 if variant == "mixed" and len(edges) < 2 and k < 4:
@@ -669,17 +769,17 @@ def dag_cases(quick):
                 if links:
                     for decl in decls if decl_mode == "all" else few:
                         for lo in orders:
-                            yield {"layer": "dag", "kinds": kinds, "decl": decl, "links": lo}
+                            yield {"layer": "dag", "kinds": kinds, "decl": decl, "links": lo, **more}
                 # every single extra link that closes a cycle (self-loops included).  The declaration order cannot
                 # matter for the link graph: first order only (thorough: also the last)
                 if with_closing:
                     for s, t in closing_edges:
-                        cl = links_for([(s, t)], variant)[0]
+                        cl = links_for([(s, t)], variant, par)[0]
                         if any(l["t"] == cl["t"] and l["p"] == cl["p"] for l in links):
                             cl["p"] = "p3" if cl["p"] != "p3" else "p2"
                         for decl in (decls[0],) if (quick or k == 1 or k == 4) else (decls[0], decls[-1]):
                             for lo in orders[:2]:
-                                yield {"layer": "dag", "kinds": kinds, "decl": decl, "links": lo + [cl]}
+                                yield {"layer": "dag", "kinds": kinds, "decl": decl, "links": lo + [cl], **more}
         # class groups whose link-fed parameters are class-typed (a whole-object link then replaces a subclass action)
         if k > 1:
             for edges in dags:
@@ -703,12 +803,11 @@ def _subsets(cands, sizes, need=None):
             yield links
 
 
-def hier_links(root_kind, variant):
-    how = "w" if variant.startswith("whole") else "a"
-    fn = int(variant.endswith("+fn"))
-    down = [{"s": [[src, how]], "t": lvl, "p": p, "fn": fn} for src, p in (("sa", "pa"), ("sb", "pb")) for lvl in ("L0", "L1", "L2")]
+def hier_links(root_kind, variant, par="p"):
+    how, fn = parse_variant(variant)
+    down = [{"s": [[src, how]], "t": lvl, "p": p, "fn": fn} for src, p in (("sa", par + "a"), ("sb", par + "b")) for lvl in ("L0", "L1", "L2")]
     up = [
-        {"s": [[lvl, how]], "t": tgt, "p": "pr", "fn": fn}
+        {"s": [[lvl, how]], "t": tgt, "p": par + "r", "fn": fn}
         for lvl in (["L0", "L1"] if root_kind == "G" else ["L0"])
         for tgt in ("sa", "sb")
     ]
@@ -719,56 +818,81 @@ def hier_cases(quick):
     """Family 'hier': first the planned space (the two components feed the three levels: nested target prefixes, the
     shape repaired in 4.37), then link sets in which a level is also a source."""
     decls = [list(p) for p in itertools.permutations(["sa", "sb", "root"])]
+    some = (decls[0], decls[3], decls[5])
+    # rows (variant, sizes, kinds of sa/sb, link-order level (-1: as listed) [, name scheme, target parameters, declaration orders])
     if quick:
         plan = [("whole", (1, 2), ("GG", "SG"), 0), ("whole", (3,), ("GG",), 0), ("attr+fn", (1, 2), ("GG",), 0)]
+        # prefix-related names around `root` (roo / root2); None-valued attribute of the components (S: subclass sources)
+        plan += [("whole", (1, 2), ("GG",), -1, "prefix", "p", some), ("attr:n", (1,), ("SS",), -1, "plain", "d", some[:2])]
     else:
         plan = [("whole", (1, 2, 3), ("GG", "SG", "GS", "SS"), 1), ("whole", (4, 5, 6), ("GG", "SG"), 0)]
         plan += [("attr+fn", (1, 2, 3), ("GG", "SG"), 1), ("attr+fn", (4, 5, 6), ("GG",), 0), ("attr", (1, 2, 3), ("GG",), 0)]
-    for variant, sizes, src_list, level in plan:
+        plan += [("whole", (1, 2, 3), ("GG", "SG"), 0, "prefix", "p", decls), ("attr+fn", (1, 2), ("GS",), 0, "prefix", "p", decls)]
+        plan += [(v, (1, 2), ("SS", "GS"), -1, "plain", "d", decls) for v in ("attr:n", "attr:n+fn", "attr:z", "attr:o")]
+    for row in plan:
+        variant, sizes, src_list, level, names, par, decl_list = (row + ("plain", "p", decls))[:7]
+        more = {} if names == "plain" else {"names": names}
         for root_kind in ("G", "S"):
-            down, up = hier_links(root_kind, variant)
+            down, up = hier_links(root_kind, variant, par)
             for links in _subsets(down, sizes):
                 for src_kinds in src_list:
-                    for decl in decls:
-                        for lo in link_orders(links, level):
-                            yield {"layer": "hier", "root": root_kind, "src": src_kinds, "decl": decl, "links": lo}
-    for variant in ("whole", "attr+fn"):
+                    for decl in decl_list:
+                        for lo in link_orders(links, max(level, 0))[: 1 if level < 0 else None]:
+                            yield {"layer": "hier", "root": root_kind, "src": src_kinds, "decl": decl, "links": lo, **more}
+    # link sets in which a level is also a source
+    up_plan = [("whole", "plain", "p"), ("attr+fn", "plain", "p")]
+    # ... with prefix-related names, and with a None / falsy attribute of a level as the source value
+    up_plan += [("attr:n", "plain", "d")] if quick else [("whole", "prefix", "p"), ("attr:n", "plain", "d"), ("attr:n+fn", "plain", "d"), ("attr:f", "plain", "d")]
+    for variant, names, par in up_plan:
+        new = (names, par) != ("plain", "p")
+        more = {} if names == "plain" else {"names": names}
         for root_kind in ("G", "S"):
-            down, up = hier_links(root_kind, variant)
-            for links in _subsets(down + up, (1, 2) if quick else (1, 2, 3), need=lambda l: l["t"] in ("sa", "sb")):
+            down, up = hier_links(root_kind, variant, par)
+            for links in _subsets(down + up, (1, 2) if quick or new else (1, 2, 3), need=lambda l: l["t"] in ("sa", "sb")):
                 for src_kinds in ("GG",) if quick or variant != "whole" else ("GG", "SG"):
-                    for decl in (decls[0], decls[3], decls[5]) if quick else decls:
-                        for lo in link_orders(links, 0 if quick else 2):
-                            yield {"layer": "hier", "root": root_kind, "src": src_kinds, "decl": decl, "links": lo}
+                    for decl in ((decls[0], decls[5]) if new else some) if quick else decls:
+                        for lo in link_orders(links, 0 if quick else 2)[: 1 if new else None]:
+                            yield {"layer": "hier", "root": root_kind, "src": src_kinds, "decl": decl, "links": lo, **more}
 
 
-def within_links(variant):
-    how = "w" if variant.startswith("whole") else "a"
-    fn = int(variant.endswith("+fn"))
-    sib = [{"s": [[s, how]], "t": t, "p": "q" + s, "fn": fn} for s in "abc" for t in "abc" if s != t]
-    outer = [{"s": [["X", how]], "t": t, "p": "qs", "fn": fn} for t in ("a", "b", "c", "H")]
-    outer.append({"s": [["H", how]], "t": "X", "p": "pr", "fn": fn})
+def within_links(variant, par="p"):
+    how, fn = parse_variant(variant)
+    q = "q" if par == "p" else "d"
+    sib = [{"s": [[s, how]], "t": t, "p": q + s, "fn": fn} for s in "abc" for t in "abc" if s != t]
+    outer = [{"s": [["X", how]], "t": t, "p": q + "s", "fn": fn} for t in ("a", "b", "c", "H")]
+    outer.append({"s": [["H", how]], "t": "X", "p": par + "r", "fn": fn})
     return sib, outer
 
 
 def within_cases(quick):
     """Family 'within': links between sibling objects inside one class-typed argument (delegated to the argument's
     own parser, where the same ordering code runs), combined with links from / to a separate component."""
+    # rows (variant, sizes, kinds of h / sa, link-order level (-1: as listed) [, name scheme, target parameters])
     if quick:
         plan = [("whole", (1, 2, 3), (("S", "G"),), 0), ("attr+fn", (1, 2), (("S", "G"),), 0)]
+        # prefix-related names of the argument and the outside component (h / h2, either way round); None-valued
+        # attribute of a sibling / of the holder / of the component as the source value
+        plan += [("whole", (1, 2), (("S", "G"),), -1, "prefix", "p"), ("whole", (1,), (("S", "S"),), -1, "prefix-rev", "p")]
+        plan += [("attr:n", (1, 2), (("S", "G"),), -1, "plain", "d"), ("attr:n+fn", (1,), (("A", "S"),), -1, "plain", "d")]
     else:
         plan = [("whole", (1, 2, 3), (("S", "G"), ("A", "G"), ("S", "S")), 2), ("whole", (4,), (("S", "G"),), 0)]
         plan += [("attr+fn", (1, 2, 3), (("S", "G"), ("A", "S")), 0), ("attr", (1, 2), (("S", "G"),), 0)]
-    for variant, sizes, kind_list, level in plan:
-        sib, outer = within_links(variant)
+        plan += [("whole", (1, 2, 3), (("S", "G"), ("A", "S")), 0, names, "p") for names in ("prefix", "prefix-rev")]
+        plan += [(v, (1, 2), (("S", "S"), ("A", "G")), 0, "plain", "d") for v in ("attr:n", "attr:n+fn", "attr:z", "attr:l")]
+    for row in plan:
+        variant, sizes, kind_list, level, names, par = (row + ("plain", "p"))[:6]
+        more = {} if names == "plain" else {"names": names}
+        sib, outer = within_links(variant, par)
         for links in _subsets(sib + outer, sizes):
             only_sib = all(l["t"] in "abc" and l["s"][0][0] in "abc" for l in links)
+            if only_sib and names != "plain" and len(links) > 1:
+                continue  # the outside component takes no part: its name cannot matter beyond the single links
             for hk, xk in kind_list:
                 for decl in (["h", "sa"], ["sa", "h"]):
                     if quick and only_sib and decl[0] == "sa":
                         continue
-                    for lo in link_orders(links, level):
-                        yield {"layer": "within", "h": hk, "x": xk, "decl": decl, "links": lo}
+                    for lo in link_orders(links, max(level, 0))[: 1 if level < 0 else None]:
+                        yield {"layer": "within", "h": hk, "x": xk, "decl": decl, "links": lo, **more}
 
 
 # ---- operation histories with an aborted instantiation (fault points) ---------------------------------
